@@ -250,6 +250,15 @@ def check_clauses(ctx, rng, n, vi, led, conn, entries, options, txns, d, e, use_
     if {a: i for a, i in bal} != expb:
         ctx.violation('c13.balances_route_differs', f'BALANCES FROM {clauses} differs from the per-account sums of the SELECT route', case)
         return False
+    try:
+        jrows = conn.execute(f'JOURNAL FROM {clauses}').fetchall()
+    except Exception as exc:  # noqa: BLE001
+        ctx.violation('c13.journal_rejected', f'JOURNAL FROM {clauses}: {exc!r}', case)
+        return False
+    ctx.count('obs.journal_route')
+    if [(j[0], j[1], j[4], j[5]) for j in jrows] != [(r[4], r[5], r[2], r[3]) for r in rows]:
+        ctx.violation('c13.journal_route_differs', f'JOURNAL FROM {clauses}: its postings (date, flag, account, position) differ from the SELECT route ({len(jrows)} vs {len(rows)} rows)', case)
+        return False
     from beanquery import compiler, query_execute
     out = io.StringIO()
     try:
@@ -313,7 +322,7 @@ def finalize(merged):
     if len(subsets) < 10:
         reasons.append(f'only {len(subsets)} of the clause subsets observed: {sorted(subsets)}')
     for k in ('obs.original_transactions_cut', 'obs.original_transactions_kept', 'obs.balance_sheet_accounts_compared',
-              'obs.income_statement_accounts_compared', 'obs.filter_relations', 'obs.print_route', 'obs.balances_route',
+              'obs.income_statement_accounts_compared', 'obs.filter_relations', 'obs.print_route', 'obs.balances_route', 'obs.journal_route',
               'obs.close_before_open_rejected', 'obs.digest_comparisons', 'obs.statements_on_shared_connection', 'obs.subselect_clause_relations'):
         if c.get(k, 0) == 0:
             reasons.append(f'{k} == 0')
